@@ -6,6 +6,8 @@ import Ark.Model.DrvC20
 import Ark.Model.DrvC02
 import Ark.Model.DrvC19
 import Ark.Model.DrvC07
+import Ark.Model.DrvC05
+import Ark.Model.DrvC13
 /-  arkdrv: one op per line on stdin: `<prop> <op> args… => <impl output>` → one line `model|verdict` -/
 open Ark
 
@@ -14,6 +16,7 @@ structure DrvState where
   c20 : DrvC20.Cache := {}
   c02 : DrvC02.Cache := {}
   c07 : DrvC07.Cache := {}
+  c13 : DrvC13.Cache := {}
 
 def dispatch (st : DrvState) (line : String) : DrvState × String :=
   let (inp, impl) := match line.trimAscii.toString.splitOn " => " with
@@ -24,6 +27,14 @@ def dispatch (st : DrvState) (line : String) : DrvState × String :=
   | "C15" :: op :: args =>
     match DrvC15.run op args impl with
     | some (m, s) => (st, m ++ "|" ++ s)
+    | none => (st, "bad-op")
+  | "C05" :: op :: args =>
+    match DrvC05.run op args impl with
+    | some (m, s) => (st, m ++ "|" ++ s)
+    | none => (st, "bad-op")
+  | "C13" :: op :: args =>
+    match DrvC13.run st.c13 op args impl with
+    | some (c, m, s) => ({ st with c13 := c }, m ++ "|" ++ s)
     | none => (st, "bad-op")
   | "C19" :: op :: args =>
     match DrvC19.run op args impl with
